@@ -179,6 +179,13 @@ namespace nmtools::array
             if (!::nmtools::utils::isequal(out_shape,view_shape))
                 return false;
 
+            if constexpr (!meta::has_identity_v<meta::remove_cvref_t<decltype(view.op)>>) {
+                // no neutral element to start the accumulators from (e.g. subtract):
+                // use the default (scalar) evaluator, which starts from the first element
+                evaluator_t<view_t,none_t,resolver_t>{view,None}(output);
+                return true;
+            }
+
             using element_type = meta::get_element_type_t<output_t>;
             // TODO: do not static assert, tell the caller some combo is not supported
             static_assert(meta::is_num_v<element_type>
